@@ -138,14 +138,18 @@ impl Prop for C18 {
             // k: (release-key 1) lets go of the virtual key's output key (the virtual key is up
             // afterwards); s c d: a sequence whose virtual key is vk1 (a tap "triggered from a
             // sequence"); "gg": two toggles within the same millisecond
+            // optionally with chords v2 configured (never used): every event then passes through its
+            // queue first, which must not change what the virtual key operations do
+            let chv2 = r.chance(300);
             case.cfg = format!(
-                "(defsrc a p r t g k s c d m)\n(defvirtualkeys vk1 1)\n(defseq vk1 (c d))\n(deflayer l0 (hold-for-duration 100 vk1) ({} press-vkey vk1) ({} release-vkey vk1) ({} tap-vkey vk1) ({} toggle-vkey vk1) (release-key 1) sldr c d (multi (on-press press-vkey vk1) (on-release release-vkey vk1)))\n",
+                "{}(defsrc a p r t g k s c d m y z n)\n(defvirtualkeys vk1 1)\n(defseq vk1 (c d))\n(deflayer l0 (hold-for-duration 100 vk1) ({} press-vkey vk1) ({} release-vkey vk1) ({} tap-vkey vk1) ({} toggle-vkey vk1) (release-key 1) sldr c d (multi (on-press press-vkey vk1) (on-release release-vkey vk1)) y z (multi (on-press toggle-vkey vk1) (on-press toggle-vkey vk1)))\n",
+                if chv2 { "(defcfg concurrent-tap-hold yes)\n(defchordsv2 (y z) 2 50 first-release ())\n" } else { "" },
                 forms[0], forms[1], forms[2], forms[3]
             );
             case.set("forms", forms.join(","));
             let mut ops = vec![Op::Gap(2)];
             for _ in 0..r.range(2, 7) {
-                let name = *r.pick(&["a", "a", "a", "a", "p", "r", "r", "t", "g", "k", "k", "seq", "seq", "gg", "m", "mm"]);
+                let name = *r.pick(&["a", "a", "a", "a", "p", "r", "r", "t", "g", "k", "k", "seq", "seq", "gg", "m", "mm", "n"]);
                 match name {
                     "seq" => {
                         for kn in ["s", "c", "d"] {
@@ -375,7 +379,7 @@ impl Prop for C18 {
                         tm = end;
                     }
                     Op::Press(c) | Op::Release(c) => {
-                        let mut name = ["a", "p", "r", "t", "g", "k", "d", "m"].iter().find(|n| oscode_of(n) == *c).copied().unwrap_or("?");
+                        let mut name = ["a", "p", "r", "t", "g", "k", "d", "m", "n"].iter().find(|n| oscode_of(n) == *c).copied().unwrap_or("?");
                         if name == "m" {
                             // press-vkey on press, release-vkey on release
                             name = if matches!(op, Op::Press(_)) { "p!" } else { "r!" };
@@ -425,6 +429,17 @@ impl Prop for C18 {
                                 // a tap of a key that is down releases it (and presses nothing new that lasts)
                                 close(&mut down, since, at, &mut intervals);
                                 intervals.push((at, at + 1));
+                                deadline = None;
+                            }
+                            "n" => {
+                                // two toggles at once: the other state and back (a blip when it was up)
+                                if !down {
+                                    intervals.push((at, at + 1));
+                                } else {
+                                    close(&mut down, since, at, &mut intervals);
+                                    down = true;
+                                    since = at;
+                                }
                                 deadline = None;
                             }
                             "g" => {
